@@ -100,3 +100,108 @@ Proof.
     - apply Nat.eqb_neq in E. rewrite IH by lia. replace (u - a)%nat with (S (u - S a)) by lia. lia. }
   rewrite G by lia. replace (u - 0)%nat with u by lia. lia.
 Qed.
+
+(* non-vacuity of the numbering theorems: samples given as [1; 0] swap the two nodes;
+   with filter_nodes off the map is the identity *)
+Example sample_ids_example :
+  r_node_map (simplify_spec f12_tables [1; 0]%nat default_opts) = [1; 0]%Z /\
+  r_node_map (simplify_spec f12_tables [1]%nat (mkOpts false false false false false true true true true)) = [0; 1]%Z /\
+  r_edges (simplify_spec f12_tables [1; 0]%nat default_opts) = [(0, 12, 0, 1)]%Z.
+Proof. repeat split; vm_compute; reflexivity. Qed.
+
+(* ---- filter_sites is exact in the specification ------------------------------------------ *)
+Lemma filter_all {A} (P : A -> bool) l : (forall x, In x l -> P x = true) -> filter P l = l.
+Proof.
+  induction l as [|x l IH]; intros H; simpl; [reflexivity|].
+  rewrite (H x (or_introl eq_refl)). f_equal. apply IH. intros y Hy. apply H. right; exact Hy.
+Qed.
+
+Lemma idmap_nth n s : (s < n)%nat -> nth s (idmap n) (-1)%Z = Z.of_nat s.
+Proof.
+  intros H. unfold idmap. rewrite (nth_indep _ (-1)%Z (Z.of_nat 0)) by (rewrite map_length, seq_length; exact H).
+  rewrite map_nth. rewrite seq_nth by exact H. reflexivity.
+Qed.
+
+Lemma refmap_nth refd : forall n j0 next k, (0 <= next)%Z -> (k < n)%nat ->
+  (nth k (refmap n j0 refd next) (-1)%Z = (-1)%Z <-> refd (j0 + k)%nat = false).
+Proof.
+  induction n as [|n IH]; intros j0 next k Hn Hk; [lia|]. simpl.
+  destruct k as [|k].
+  - rewrite Nat.add_0_r. destruct (refd j0) eqn:E; simpl; split; intros H; try congruence; lia.
+  - replace (j0 + S k)%nat with (S j0 + k)%nat by lia.
+    destruct (refd j0); simpl; apply IH; lia.
+Qed.
+
+Lemma in_combine_seq {A} (l : list A) (m : A) : In m l -> forall a, exists j, In (j, m) (combine (seq a (length l)) l).
+Proof.
+  induction l as [|x l IH]; intros H a; [contradiction|]. simpl.
+  destruct H as [-> | H].
+  - exists a. left; reflexivity.
+  - destruct (IH H (S a)) as [j Hj]. exists j. right; exact Hj.
+Qed.
+
+(* where the mutation row m = (site, node, parent) goes *)
+Definition spec_target (t : tables) (smp : list nat) (o : opts) (m : nat * nat * Z) : option nat :=
+  let '(s, u, _) := m in
+  mut_target (par_at (t_edges t) (nth s (t_sites t) 0%Z)) (node_ids t) smp (unary_of o t) (o_kir o) (fuel_of t) u.
+
+Lemma spec_sites_unfiltered_lemma t smp o :
+  o_fs o = false -> r_sites (simplify_spec t smp o) = seq 0 (length (t_sites t)).
+Proof.
+  intros H. unfold simplify_spec. cbn [r_sites]. rewrite H.
+  apply filter_all. intros s Hs. apply in_seq in Hs. rewrite idmap_nth by lia.
+  apply negb_true_iff. apply Z.eqb_neq. lia.
+Qed.
+
+Lemma spec_sites_filtered_lemma t smp o s :
+  o_fs o = true ->
+  (In s (r_sites (simplify_spec t smp o)) <->
+   (s < length (t_sites t))%nat /\
+   exists m, In m (t_muts t) /\ fst (fst m) = s /\ spec_target t smp o m <> None).
+Proof.
+  intros H. unfold simplify_spec. cbn [r_sites]. rewrite H.
+  rewrite filter_In, in_seq.
+  set (keptm := flat_map _ (combine (seq 0 (length (t_muts t))) (t_muts t))).
+  set (site_ref := fun s0 : nat => existsb _ keptm).
+  assert (Href : site_ref s = true <->
+                 exists m, In m (t_muts t) /\ fst (fst m) = s /\ spec_target t smp o m <> None).
+  { unfold site_ref. rewrite existsb_exists. split.
+    - intros [[[j [[s' u] mp]] v] [Hin Hs]]. apply Nat.eqb_eq in Hs. subst s'.
+      unfold keptm in Hin. apply in_flat_map in Hin as [[j' [[a b] c]] [Hc Hin]].
+      cbn [fst snd] in Hin.
+      change (mut_target (par_at (t_edges t) (nth a (t_sites t) 0%Z)) (node_ids t) smp (unary_of o t) (o_kir o) (fuel_of t) b)
+        with (spec_target t smp o (a, b, c)) in Hin.
+      destruct (spec_target t smp o (a, b, c)) as [v'|] eqn:Et; [|contradiction].
+      destruct Hin as [E | []]. inversion E; subst.
+      exists (s, u, mp). split; [eapply in_combine_r; eauto|]. split; [reflexivity|]. congruence.
+    - intros [[[s' u] mp] [Hin [Hs Ht]]]. simpl in Hs. subst s'.
+      destruct (in_combine_seq (t_muts t) (s, u, mp) Hin 0%nat) as [j Hj].
+      destruct (spec_target t smp o (s, u, mp)) as [v|] eqn:Et; [|congruence].
+      exists (j, (s, u, mp), v). split; [|apply Nat.eqb_refl].
+      unfold keptm. apply in_flat_map. exists (j, (s, u, mp)). split; [exact Hj|].
+      cbn [fst snd].
+      change (mut_target (par_at (t_edges t) (nth s (t_sites t) 0%Z)) (node_ids t) smp (unary_of o t) (o_kir o) (fuel_of t) u)
+        with (spec_target t smp o (s, u, mp)).
+      rewrite Et. left; reflexivity. }
+  split.
+  - intros [Hs Hn]. split; [lia|]. apply Href.
+    apply negb_true_iff in Hn. apply Z.eqb_neq in Hn.
+    destruct (site_ref s) eqn:E; [reflexivity|]. exfalso. apply Hn.
+    apply (refmap_nth site_ref (length (t_sites t)) 0 0%Z s); [lia | lia | exact E].
+  - intros [Hs Hm]. split; [lia|]. apply Href in Hm.
+    apply negb_true_iff. apply Z.eqb_neq. intros E.
+    apply (refmap_nth site_ref (length (t_sites t)) 0 0%Z s) in E; [|lia|lia]. simpl in E. congruence.
+Qed.
+
+(* non-vacuity: two sites; the mutation at site 0 sits above the chosen sample 0, the one at
+   site 1 above the unchosen leaf 1.  filter_sites keeps site 0 only. *)
+Definition sites_tables : tables :=
+  mkTables 8 [(1, 0, -1, -1); (1, 0, -1, -1); (0, 1, -1, -1)]%Z
+           [(0%Z, 8%Z, 2%nat, 0%nat); (0%Z, 8%Z, 2%nat, 1%nat)] [2; 6]%Z
+           [(0%nat, 0%nat, (-1)%Z); (1%nat, 1%nat, (-1)%Z)] [] 0.
+Example sites_filter_example :
+  r_sites (simplify_spec sites_tables [0]%nat default_opts) = [0]%nat /\
+  r_muts (simplify_spec sites_tables [0]%nat default_opts) = [(0%nat, 0, 0, -1)]%Z /\
+  r_sites (simplify_spec sites_tables [0]%nat (mkOpts false false false false true false true true true)) = [0; 1]%nat /\
+  spec_target sites_tables [0]%nat default_opts (1%nat, 1%nat, (-1)%Z) = None.
+Proof. repeat split; vm_compute; reflexivity. Qed.
